@@ -5,6 +5,7 @@ import (
 	"encoding/json"
 	"fmt"
 	"sort"
+	"strings"
 )
 
 // ---- order-preserving JSON ---------------------------------------------------
@@ -295,6 +296,11 @@ func normalizeSpecSkeleton(v any) any {
 			x[i] = normalizeSpecSkeleton(x[i])
 		}
 		return x
+	case string:
+		// "\xNN" in a text of the specification stands for the raw byte
+		if strings.Contains(x, `\x`) {
+			return rawText(x)
+		}
 	}
 	return v
 }
